@@ -269,10 +269,10 @@ def isvalidcdr3(string):
     """
     try:
         return (
-            isvalidaa(string) and (string[0] == "C") and (string[-1] in ["F", "W", "C"])
+            isvalidaa(string) and len(string) > 0 and (string[0] == "C") and (string[-1] in ["F", "W", "C"])
         )
     # if 'string' is not of string type (e.g. nan) it is not valid
-    except TypeError:
+    except (TypeError, KeyError, IndexError):
         return False
 
 
